@@ -252,6 +252,7 @@ func genStates(c *caseCtx, n int) []state {
 		sp = append(sp, kingNextToHomeRook(c, 20)...)
 		sp = append(sp, pinLines(c, 40)...)
 		sp = append(sp, queenStars(c, 10)...)
+		sp = append(sp, h1Corner(c, 30)...)
 		for _, f := range sp {
 			ret = append(ret, mustDecode(f))
 		}
@@ -584,6 +585,57 @@ func pinLines(c *caseCtx, n int) []string {
 			if pos.IsChecked(side.Opponent()) {
 				continue
 			}
+		}
+		ret = append(ret, fen.Encode(pos, side, 0, 1))
+	}
+	return ret
+}
+
+// h1Corner: square 0 is h1 and also means "no en passant square": positions that put pawns and pieces
+// around that corner (a black pawn on g2 about to promote, white pawns on the h-file, h1 empty or
+// occupied), with and without a real en passant square elsewhere; and the mirror-image corner a8 for
+// White. Black / White to move respectively.
+func h1Corner(c *caseCtx, n int) []string {
+	var ret []string
+	for tries := 0; tries < 100*n && len(ret) < n; tries++ {
+		var used [64]bool
+		var pls []board.Placement
+		put := func(col board.Color, pc board.Piece, sq board.Square) bool {
+			if sq >= 64 || used[sq] || (pc == board.Pawn && (sq.Rank() == board.Rank1 || sq.Rank() == board.Rank8)) {
+				return false
+			}
+			used[sq] = true
+			pls = append(pls, board.Placement{Square: sq, Color: col, Piece: pc})
+			return true
+		}
+		side := board.Black
+		pawnSq, cornerSq := board.G2, board.H1
+		hFile := []board.Square{board.H3, board.H4, board.H5, board.H6}
+		if c.r.Intn(4) == 0 {
+			side = board.White
+			pawnSq, cornerSq = board.B7, board.A8
+			hFile = []board.Square{board.A6, board.A5, board.A4, board.A3}
+		}
+		put(side, board.Pawn, pawnSq)
+		if c.r.Intn(2) == 0 {
+			put(side.Opponent(), []board.Piece{board.Rook, board.Knight, board.Bishop, board.Queen}[c.r.Intn(4)], cornerSq)
+		}
+		for _, sq := range hFile {
+			if c.r.Intn(2) == 0 {
+				put(side.Opponent(), board.Pawn, sq)
+			}
+		}
+		for !put(side, board.King, board.Square(c.r.Intn(64))) {
+		}
+		for !put(side.Opponent(), board.King, board.Square(c.r.Intn(64))) {
+		}
+		extras := []board.Piece{board.Pawn, board.Pawn, board.Rook, board.Knight, board.Bishop}
+		for j := 0; j < c.r.Intn(5); j++ {
+			put(board.Color(c.r.Intn(2)), extras[c.r.Intn(len(extras))], board.Square(c.r.Intn(64)))
+		}
+		pos, err := board.NewPosition(pls, 0, 0)
+		if err != nil || pos == nil || pos.IsChecked(side.Opponent()) {
+			continue
 		}
 		ret = append(ret, fen.Encode(pos, side, 0, 1))
 	}
